@@ -10,9 +10,10 @@ chunks whose bytes were all read successfully": second invariant `Inv2` (every r
 delivered by the source, ends at a chunk boundary or at EOF, and is still present in the range map), the
 monotone predicate `Covered`, and `getRangeLocation_covered`.
 
-Hypothesis `F.length + chunk ≤ 2^64`: for a file within one chunk of `2^64` the saturating
-`round_up_to_multiple` (9c4312ce) plans a buffer up to EOF, which may reach past the chunk boundary at which
-the covering buffer ended. Core Lean only.
+Hypothesis `chunk ∣ 2^64 ∨ F.length + chunk ≤ 2^64` (the first holds for the real chunk size 32768, so for
+the code as it is there is no restriction on the file): for a chunk size that does not divide `2^64` and a
+file within one chunk of `2^64` the saturating `round_up_to_multiple` (9c4312ce) plans a buffer up to EOF,
+which may reach past the chunk boundary at which the covering buffer ended. Core Lean only.
 -/
 namespace CC
 
@@ -117,7 +118,8 @@ theorem covered_mono_push {st : St} {a b : Nat} (rr : Range) (buf : List UInt8) 
 
 /-- `get_range_location` and the second invariant: it is kept, covered ranges stay covered, a located range
 is covered afterwards, and a covered range is located without the source failing. -/
-theorem getRangeLocation_cover (c : Cfg) (F : List UInt8) (hc : 0 < c.chunk) (hsz2 : F.length + c.chunk ≤ U64)
+theorem getRangeLocation_cover (c : Cfg) (F : List UInt8) (hc : 0 < c.chunk) (hsz : F.length < U64)
+    (hch : c.chunk ∣ U64 ∨ F.length + c.chunk ≤ U64)
     (hmono : SrcMono c.src) (st : St) (hinv : Inv F st) (h2 : Inv2 c F st) (r : Range)
     (h1 : r.lo < r.hi) (hb : r.hi ≤ F.length) :
     Inv2 c F (getRangeLocation c st r).1 ∧
@@ -129,8 +131,7 @@ theorem getRangeLocation_cover (c : Cfg) (F : List UInt8) (hc : 0 < c.chunk) (hs
   · unfold getRangeLocation
     rw [hd]
     exact ⟨h2, fun _ _ h => h, fun _ _ => ⟨idx, br, hbr, g1, g2⟩, (fun _ h => by cases h)⟩
-  · have hnov : ¬ U64 ≤ r.hi + (c.chunk - 1) := by omega
-    have hup := le_roundUp r.hi c.chunk hc (by omega)
+  · have hup := le_roundUp r.hi c.chunk hc (by omega)
     have hdn := roundDown_le r.lo c.chunk
     have hrrlo : rr.lo ≤ r.lo := by rcases glo with ⟨_, h⟩ | ⟨_, h⟩ <;> omega
     have hrrhi : r.hi ≤ rr.hi := by omega
@@ -155,7 +156,13 @@ theorem getRangeLocation_cover (c : Cfg) (F : List UInt8) (hc : 0 < c.chunk) (hs
       have hhi : rr.hi ≤ br.range.hi := by
         rcases s2 with s2 | s2
         · omega
-        · have := roundUp_le_of_dvd r.hi c.chunk br.range.hi hc s2 c2 hnov
+        · have hnov : ¬ U64 ≤ r.hi + (c.chunk - 1) := by
+            rcases hch with hd | hd
+            · have d1 : c.chunk ∣ U64 - br.range.hi := Nat.dvd_sub hd s2
+              have d2 : c.chunk ≤ U64 - br.range.hi := Nat.le_of_dvd (by omega) d1
+              omega
+            · omega
+          have := roundUp_le_of_dvd r.hi c.chunk br.range.hi hc s2 c2 hnov
           omega
       have := hmono br.range.lo (br.range.hi - br.range.lo) rr.lo (rr.hi - rr.lo) s1 (by omega) (by omega)
       rw [hsrc] at this
@@ -185,9 +192,13 @@ theorem getRangeLocation_cover (c : Cfg) (F : List UInt8) (hc : 0 < c.chunk) (hs
               have hidx : idx = st.mgr.bufRanges.length := by omega
               refine ⟨by rw [hsrc]; rfl, ?_, by rw [hidx]; exact List.mem_cons_self⟩
               rw [ghi]
-              rcases Nat.le_total (roundUp r.hi c.chunk) F.length with hle | hle
-              · right; rw [Nat.min_eq_left hle]; exact roundUp_dvd r.hi c.chunk hnov
-              · left; exact Nat.min_eq_right hle
+              by_cases hsat : U64 ≤ r.hi + (c.chunk - 1)
+              · left
+                have : roundUp r.hi c.chunk = U64 - 1 := by simp only [roundUp, hsat, if_true]
+                rw [this]; omega
+              · rcases Nat.le_total (roundUp r.hi c.chunk) F.length with hle | hle
+                · right; rw [Nat.min_eq_left hle]; exact roundUp_dvd r.hi c.chunk hsat
+                · left; exact Nat.min_eq_right hle
             | succ k => rw [hk] at h; simp at h
         · intro l _
           refine ⟨st.mgr.bufRanges.length, ⟨rr, st.bufferCount⟩, ?_, hrrlo, hrrhi⟩
@@ -203,7 +214,8 @@ def okCover (op : Op) (out : Out (List UInt8)) (st : St) : Prop :=
 
 /-- every public call keeps the second invariant and covered ranges; a successful range read leaves its
 range covered; a range read of a covered range does not fail with the source's error -/
-theorem step_cover (c : Cfg) (F : List UInt8) (hc : 0 < c.chunk) (hsz2 : F.length + c.chunk ≤ U64)
+theorem step_cover (c : Cfg) (F : List UInt8) (hc : 0 < c.chunk) (hsz : F.length < U64)
+    (hch : c.chunk ∣ U64 ∨ F.length + c.chunk ≤ U64)
     (hmono : SrcMono c.src) (st : St) (hinv : Inv F st) (h2 : Inv2 c F st) (op : Op) :
     Inv2 c F (step c st op).1 ∧
     (∀ a b, Covered st a b → Covered (step c st op).1 a b) ∧
@@ -222,7 +234,7 @@ theorem step_cover (c : Cfg) (F : List UInt8) (hc : 0 < c.chunk) (hsz2 : F.lengt
     by_cases h3 : F.length < o + n
     · simp only [h0, h1, h3, if_true, if_false]; exact ⟨h2, fun _ _ h => h, trivial⟩
     simp only [h0, h1, h3, if_false]
-    have hg := getRangeLocation_cover c F hc hsz2 hmono st hinv h2 ⟨o, o + n⟩ (by simp only; omega)
+    have hg := getRangeLocation_cover c F hc hsz hch hmono st hinv h2 ⟨o, o + n⟩ (by simp only; omega)
       (by simp only; omega)
     generalize getRangeLocation c st ⟨o, o + n⟩ = res at hg ⊢
     obtain ⟨st', out⟩ := res
@@ -256,7 +268,7 @@ theorem step_cover (c : Cfg) (F : List UInt8) (hc : 0 < c.chunk) (hsz2 : F.lengt
       · simp only [hz, if_true]; exact ⟨h2, fun _ _ h => h, trivial⟩
       have hov : ¬ U64 ≤ r.lo + maxLen := by omega
       simp only [hz, hov, if_false]
-      have hg := getRangeLocation_cover c F hc hsz2 hmono st hinv h2 ⟨r.lo, r.lo + maxLen⟩
+      have hg := getRangeLocation_cover c F hc hsz hch hmono st hinv h2 ⟨r.lo, r.lo + maxLen⟩
         (by simp only; omega) (by simp only; omega)
       generalize getRangeLocation c st ⟨r.lo, r.lo + maxLen⟩ = res at hg ⊢
       obtain ⟨st', out⟩ := res
@@ -282,13 +294,13 @@ theorem step_cover (c : Cfg) (F : List UInt8) (hc : 0 < c.chunk) (hsz2 : F.lengt
             exact ⟨idx, br, hbr, x1, x2⟩
 
 /-- a range read of a covered range returns the file's bytes — the source's failure is not an option -/
-theorem readBytesAt_covered (c : Cfg) (F : List UInt8) (hc : 0 < c.chunk) (hsz2 : F.length + c.chunk ≤ U64)
+theorem readBytesAt_covered (c : Cfg) (F : List UInt8) (hc : 0 < c.chunk) (hsz : F.length < U64)
+    (hch : c.chunk ∣ U64 ∨ F.length + c.chunk ≤ U64)
     (hf : Faithful F c.src) (hmono : SrcMono c.src) (st : St) (hinv : Inv F st) (h2 : Inv2 c F st)
     (o n : Nat) (hn : 0 < n) (hcov : Covered st o (o + n)) :
     (readBytesAt c st o n).2 = .ok (slice F o n) := by
   obtain ⟨idx, br, hbr, c1, c2⟩ := hcov
   have hbrF := (hinv.bufs idx br hbr).2.1
-  have hsz : F.length < U64 := by omega
   have hin : o + n ≤ F.length := by omega
   rcases (readBytesAt_spec c F hc hsz hf st hinv o n).2 with hs | ⟨he, _⟩
   · rw [hs]
@@ -302,7 +314,7 @@ theorem readBytesAt_covered (c : Cfg) (F : List UInt8) (hc : 0 < c.chunk) (hsz2 
     have n1 : ¬ U64 ≤ o + n := by omega
     have n2 : ¬ F.length < o + n := by omega
     simp only [readBytesAt, hl, n0, n1, n2, if_false] at he
-    have hg := (getRangeLocation_cover c F hc hsz2 hmono st hinv h2 ⟨o, o + n⟩ (by simp only; omega)
+    have hg := (getRangeLocation_cover c F hc hsz hch hmono st hinv h2 ⟨o, o + n⟩ (by simp only; omega)
       (by simp only; omega)).2.2.2 ⟨idx, br, hbr, c1, c2⟩
     generalize getRangeLocation c st ⟨o, o + n⟩ = res at hg he
     obtain ⟨st', out⟩ := res
@@ -317,18 +329,18 @@ theorem readBytesAt_covered (c : Cfg) (F : List UInt8) (hc : 0 < c.chunk) (hsz2 
     | panic => simp only at he; cases he
 
 /-- the state after `ops` satisfies both invariants, and `Covered` only grows along a history -/
-theorem run_inv2 (c : Cfg) (F : List UInt8) (hc : 0 < c.chunk) (hsz2 : F.length + c.chunk ≤ U64)
+theorem run_inv2 (c : Cfg) (F : List UInt8) (hc : 0 < c.chunk) (hsz : F.length < U64)
+    (hch : c.chunk ∣ U64 ∨ F.length + c.chunk ≤ U64)
     (hf : Faithful F c.src) (hmono : SrcMono c.src) (ops : List Op) (st : St) (hinv : Inv F st)
     (h2 : Inv2 c F st) :
     Inv F (ops.foldl (fun st op => (step c st op).1) st) ∧
     Inv2 c F (ops.foldl (fun st op => (step c st op).1) st) ∧
     ∀ a b, Covered st a b → Covered (ops.foldl (fun st op => (step c st op).1) st) a b := by
-  have hsz : F.length < U64 := by omega
   induction ops generalizing st with
   | nil => exact ⟨hinv, h2, fun _ _ h => h⟩
   | cons op ops ih =>
     have s1 := (step_spec c F hc hsz hf st hinv op).1
-    obtain ⟨s2, s3, _⟩ := step_cover c F hc hsz2 hmono st hinv h2 op
+    obtain ⟨s2, s3, _⟩ := step_cover c F hc hsz hch hmono st hinv h2 op
     obtain ⟨i1, i2, i3⟩ := ih _ s1 s2
     exact ⟨i1, i2, fun a b h => i3 a b (s3 a b h)⟩
 
